@@ -5,6 +5,7 @@ import (
 	"go/constant"
 	"go/token"
 	"math/big"
+	"os"
 	"sort"
 
 	"golang.org/x/tools/go/ssa"
@@ -410,6 +411,9 @@ func closestPointsOrthogonalRule(p *core.Program, r *core.Report, rule string) {
 			}
 			for _, e := range edges {
 				cc, ok := eng.EdgeCmp(f.Blocks[e[0]], e[1])
+				if os.Getenv("VERIF_POLY_DBG") != "" {
+					fmt.Fprintf(os.Stderr, "POLY way pred=b%d edge=%v cmp=%v ok=%v\n", pred.Index, e, cc, ok)
+				}
 				if !ok {
 					continue
 				}
